@@ -251,6 +251,8 @@ var _OpFuncTab = [256]func(*Assembler, *ir.Instr){
 	ir.OP_is_zero_2:      (*Assembler)._asm_OP_is_zero_2,
 	ir.OP_is_zero_4:      (*Assembler)._asm_OP_is_zero_4,
 	ir.OP_is_zero_8:      (*Assembler)._asm_OP_is_zero_8,
+	ir.OP_is_zero_f4:     (*Assembler)._asm_OP_is_zero_f4,
+	ir.OP_is_zero_f8:     (*Assembler)._asm_OP_is_zero_f8,
 	ir.OP_is_zero_map:    (*Assembler)._asm_OP_is_zero_map,
 	ir.OP_goto:           (*Assembler)._asm_OP_goto,
 	ir.OP_map_iter:       (*Assembler)._asm_OP_map_iter,
@@ -1088,6 +1090,19 @@ func (self *Assembler) _asm_OP_is_zero_4(p *ir.Instr) {
 func (self *Assembler) _asm_OP_is_zero_8(p *ir.Instr) {
 	self.Emit("CMPQ", jit.Ptr(_SP_p, 0), jit.Imm(0)) // CMPQ (SP.p), $0
 	self.Xjmp("JE", p.Vi())                          // JE   p.Vi()
+}
+
+// float zero checks ignore the sign bit: -0.0 is empty for `omitempty`, as in encoding/json
+func (self *Assembler) _asm_OP_is_zero_f4(p *ir.Instr) {
+	self.Emit("MOVL", jit.Ptr(_SP_p, 0), _AX) // MOVL (SP.p), AX
+	self.Emit("ADDL", _AX, _AX)               // ADDL AX, AX
+	self.Xjmp("JZ", p.Vi())                   // JZ   p.Vi()
+}
+
+func (self *Assembler) _asm_OP_is_zero_f8(p *ir.Instr) {
+	self.Emit("MOVQ", jit.Ptr(_SP_p, 0), _AX) // MOVQ (SP.p), AX
+	self.Emit("ADDQ", _AX, _AX)               // ADDQ AX, AX
+	self.Xjmp("JZ", p.Vi())                   // JZ   p.Vi()
 }
 
 func (self *Assembler) _asm_OP_is_zero_map(p *ir.Instr) {
